@@ -833,8 +833,8 @@ def batchLoop : List Event → Option Err → M (Option Err)
 def dispatchEvents : M Unit := do
   forEachM (← get).life beforeSleep
   -- `Poll::poll`: the poller's report, then every expired timer in pop order
-  let (evs, k') := epWait (← get).k
-  modify fun s => { s with k := k' }
+  let evs := (epWait (← get).k).1
+  modify fun s => { s with k := (epWait s.k).2 }
   let exp := (popExpired (← get).wheel (← get).now (← get).wheel.heap.length).1
   modify fun s => { s with wheel := (popExpired s.wheel s.now s.wheel.heap.length).2 }
   let polled := evs ++ exp.map fun e => { key := e.tok, r := true, w := false }
